@@ -9,7 +9,6 @@ package loopworld
 
 import (
 	"context"
-	"errors"
 	"fmt"
 	"os"
 	"sort"
@@ -76,48 +75,53 @@ type World struct {
 	clock uint64
 	mu    sync.Mutex
 
-	touched          map[string]appVer // "dbi/key" -> last application operation
-	commits          int
-	stores           int
-	storeFail        int
-	loads            int
-	Viols            []Viol
-	remote2          []byte
-	remote2N         string
-	r2shown          bool
-	noopShown        bool
-	overdue          bool // the forced-snapshot interval elapses before the loop's next deadline check
-	forced           int
-	txnBeforeLoad    int64
-	hdrSeen          map[string]string // raw values of LS-written DBIs at the last application commit / LS transaction
-	straddleKey      string
-	emptyLoad        bool
-	visits           map[string]int
-	idle             int
-	activity         bool // a Store or a merge happened since the loop's last poll sleep
-	bucketVer        int
-	listedVer        int
-	cancel           context.CancelFunc
-	cancelled        bool
-	syncErr          error
-	syncDone         chan struct{}
-	lastHook         string
-	lastLSTxnEmpty   bool
-	straddle         *straddleTxn
-	commitAt         []string
-	storesAfterQuiet int
-	lastSeq          int
-	bookSeq          int
-	loopFirsts       int
-	cancelStep       int
-	listFail         int
-	cleanerFires     int
-	prevJ            map[string]world.Ver
-	pending          int // decoded snapshots handed to the receiver and not yet taken by the loop
-	pendingMax       int
-	remoteQ2         []byte
-	remoteQ2N        string
-	lastTxn          int64
+	touched           map[string]appVer // "dbi/key" -> last application operation
+	commits           int
+	stores            int
+	storeFail         int
+	loads             int
+	Viols             []Viol
+	remote2           []byte
+	remote2N          string
+	r2shown           bool
+	noopShown         bool
+	overdue           bool // the forced-snapshot interval elapses before the loop's next deadline check
+	forced            int
+	txnBeforeLoad     int64
+	appTxns           []int64 // ids of the application's committed transactions
+	lastUploadTxn     int64
+	lastUploadContent string
+	uploads           int
+	forcedUsed        int
+	hdrSeen           map[string]string // raw values of LS-written DBIs at the last application commit / LS transaction
+	straddleKey       string
+	emptyLoad         bool
+	visits            map[string]int
+	idle              int
+	activity          bool // a Store or a merge happened since the loop's last poll sleep
+	bucketVer         int
+	listedVer         int
+	cancel            context.CancelFunc
+	cancelled         bool
+	syncErr           error
+	syncDone          chan struct{}
+	lastHook          string
+	lastLSTxnEmpty    bool
+	straddle          *straddleTxn
+	commitAt          []string
+	storesAfterQuiet  int
+	lastSeq           int
+	bookSeq           int
+	loopFirsts        int
+	cancelStep        int
+	listFail          int
+	cleanerFires      int
+	prevJ             map[string]world.Ver
+	pending           int // decoded snapshots handed to the receiver and not yet taken by the loop
+	pendingMax        int
+	remoteQ2          []byte
+	remoteQ2N         string
+	lastTxn           int64
 }
 
 type straddleTxn struct {
@@ -318,7 +322,9 @@ func (w *World) appOp(op string) {
 			staged[dbi+"/"+k] = appVer{val: v, at: w.hookLabel()}
 		}
 	}
+	var appTxnID int64
 	w.A.AppTxn(func(txn *lmdb.Txn) error {
+		appTxnID = int64(txn.ID())
 		switch op {
 		case "put-b":
 			put(txn, "d", "b", fmt.Sprintf("B%d", w.commits))
@@ -354,6 +360,7 @@ func (w *World) appOp(op string) {
 	}
 	w.commits++
 	w.commitAt = append(w.commitAt, w.hookLabel())
+	w.appTxns = append(w.appTxns, appTxnID)
 	w.hdrSeen = w.hdrDump()
 }
 
@@ -459,6 +466,58 @@ func (w *World) newestOwn() (string, world.LC) {
 		return n, nil
 	}
 	return n, lc
+}
+
+// noteUpload (native mode): an upload other than the start-up snapshot is justified only by an application
+// transaction committed after the LMDB transaction the previous upload was an image of (or by an elapsed
+// forced-snapshot interval). Merges of remote snapshots commit transactions too; they justify nothing.
+func (w *World) noteUpload(name string) {
+	if !strings.HasPrefix(name, inst.DBName+"__a__") {
+		return
+	}
+	data, _ := w.B.Get(name)
+	snap, err := snapshot.LoadData(data)
+	if err != nil {
+		return
+	}
+	content := ""
+	if lc, _, err := fleet.SnapLC(data); err == nil {
+		content = lc.String()
+	}
+	prevContent := w.lastUploadContent
+	w.lastUploadContent = content
+	cur := snap.Meta.LmdbTxnID
+	prev := w.lastUploadTxn
+	w.lastUploadTxn = cur
+	w.uploads++
+	if w.uploads == 1 {
+		return // start-up snapshot (or the first upload of a fresh instance)
+	}
+	w.mu.Lock()
+	forced := w.forced > w.forcedUsed
+	if forced {
+		w.forcedUsed++
+	}
+	apps := append([]int64{}, w.appTxns...)
+	w.mu.Unlock()
+	if forced {
+		return
+	}
+	// both modes: two consecutive uploads with the same content (the application alphabet never re-creates a
+	// previous state exactly: native writes carry fresh timestamps, captures stamp the time of detection)
+	if content != "" && content == prevContent {
+		mode := map[bool]string{true: "native", false: "shadow"}[w.Cfg.Native]
+		w.viol("c10:echo-upload-identical-content:"+mode, fmt.Sprintf("upload %s has exactly the content of the previous upload (application commits at %v)", name, w.commitAt))
+	}
+	if !w.Cfg.Native {
+		return
+	}
+	for _, c := range apps {
+		if c > prev && c <= cur {
+			return
+		}
+	}
+	w.viol("c10:echo-upload:native", fmt.Sprintf("upload %s is the image of LMDB transaction %d, the previous upload of transaction %d; no application transaction was committed in between (application transactions %v, commits at %v)", name, cur, prev, apps, w.commitAt))
 }
 
 // checkC11 (shadow mode, at idle): the application's DBIs hold exactly the live entries of the shadow DBIs, and the
@@ -617,7 +676,12 @@ func Run(cfg Cfg, ctx *explore.Ctx) Result {
 	}
 	w.monitor("setup")
 	w.hdrSeen = w.hdrDump()
-	w.B.AfterMutate = func(op, name string) { w.monitor(op + " " + name) }
+	w.B.AfterMutate = func(op, name string) {
+		w.monitor(op + " " + name)
+		if op == "store" {
+			w.noteUpload(name)
+		}
+	}
 	if cfg.TwoRemotes {
 		w.B.Put(qn1, qd1)
 		w.remoteQ2, w.remoteQ2N = qd2, qn2
@@ -647,7 +711,8 @@ func Run(cfg Cfg, ctx *explore.Ctx) Result {
 			if op == "list" {
 				w.listFail++
 			}
-			return errors.New("injected storage failure")
+			// like a request that ran into the storage client's timeout (the context of the caller is still alive)
+			return fmt.Errorf("injected storage failure (request timeout): %w", context.DeadlineExceeded)
 		}
 		switch op {
 		case "load":
@@ -719,6 +784,17 @@ func Run(cfg Cfg, ctx *explore.Ctx) Result {
 	if outcome == "idle" {
 		w.checkC09()
 		w.checkC11()
+		if cfg.Cleaner {
+			alive := false
+			for _, p := range s.Parked() {
+				if p.Thread == "cleaner" || p.Point == "sleep.cleaner" {
+					alive = true
+				}
+			}
+			if !alive {
+				w.viol("c12:cleaner-goroutine-gone", fmt.Sprintf("the loop is idle and its context alive, but the snapshot cleaner is no longer running (cleaner timer fired %d times, commits at %v)", w.cleanerFires, w.commitAt))
+			}
+		}
 	}
 	if s.Steps >= s.MaxSteps {
 		w.viol("loop-never-goes-idle", fmt.Sprintf("no %d consecutive idle iterations within %d steps; stores=%d loads=%d", cfg.IdleIters, s.Steps, w.stores, w.loads))
@@ -910,7 +986,7 @@ func (w *World) policy(appPoints map[string]bool) sched.Policy {
 		if len(background) > 0 {
 			p := background[0]
 			out := one(p, 0)
-			if p.Point == "st.load" && len(p.Answers) == 2 {
+			if (p.Point == "st.load" || (p.Point == "st.list" && p.Thread == "cleaner")) && len(p.Answers) == 2 {
 				out = append(out, sched.Choice{Label: p.Key() + "=fail", Cost: 1, P: p, Answer: 1})
 			}
 			// the loop is faster than the background work (a download is still in flight when the loop moves on)
@@ -1057,7 +1133,9 @@ func (w *World) startStraddle(op string) {
 		at := w.lastHook + "+straddle"
 		var key string
 		var ver appVer
+		var appTxnID int64
 		w.A.AppTxn(func(txn *lmdb.Txn) error {
+			appTxnID = int64(txn.ID())
 			native := w.Cfg.Native
 			switch op {
 			case "put-b":
@@ -1089,6 +1167,7 @@ func (w *World) startStraddle(op string) {
 		})
 		w.mu.Lock()
 		w.touched[key] = ver
+		w.appTxns = append(w.appTxns, appTxnID)
 		w.commits++
 		w.commitAt = append(w.commitAt, at)
 		w.mu.Unlock()
